@@ -175,12 +175,21 @@ def rules(P, R, prefix="C10"):
                          and ctx.term(call_args(x)[1]).startswith(mt + ".tc")]
                 if tcadv:
                     # the `if let Some(tc) = block.tc { advance }` statement as a whole precedes the parking point
-                    stmt = tcadv[0]
-                    for a in h.ancestors(tcadv[0]):
-                        if a["k"] == "if":
-                            stmt = a
+                    # (whatever its spelling - `if let`, `match`, `if .. is_some()` -: the statement of the block shared with the
+                    # parking call that contains the advance comes before the statement that contains the parking call)
+                    pm = h.parents()
+                    n_anc = [n] + list(h.ancestors(n))
+                    okt = False
+                    x = tcadv[0]
+                    while x is not None:
+                        par = pm.get(id(x))
+                        if par is not None and par["k"] == "block" and any(par is a for a in n_anc):
+                            ss = par.get("stmts", []) + ([par["expr"]] if "expr" in par else [])
+                            ia = next((k for k, s_ in enumerate(ss) if s_ is x), None)
+                            ib = next((k for k, s_ in enumerate(ss) if any(s_ is a for a in n_anc)), None)
+                            okt = ia is not None and ib is not None and ia < ib
                             break
-                    okt = any(d is stmt or d is stmt["c"] or any(y is d for y in ir.walk(stmt["c"])) for d in doms) if stmt["k"] == "if" else any(d is stmt for d in doms)
+                        x = par
                     R.judge(okt, prefix + ".P4", key(h, "TC round advance before the block can be parked" + tag, i), n["sp"], "",
                             "the block's TC is used to advance the round only after the parking point")
 
